@@ -72,11 +72,11 @@ def cases(tier: str, seed: int) -> list[dict]:
     for direction in ('DOWNLOAD', 'UPLOAD'):
         for st in states_for(direction):
             out.append({'kind': 'peer-matrix', 'direction': direction, 'state': st, 'seed': seed})
-    n_conc = 12000 if tier == 'quick' else 100000
+    n_conc = 12000 if tier == 'quick' else 1500000
     batch = 25
     for i in range(n_conc // batch):
         out.append({'kind': 'concurrent', 'seed': seed, 'i': i, 'n': batch})
-    n_live = 240 if tier == 'quick' else 2000
+    n_live = 240 if tier == 'quick' else 20000
     for i in range(n_live):
         out.append({'kind': 'live', 'seed': seed, 'i': i})
     return out
